@@ -214,6 +214,11 @@ def run(ctx):
                     elif kind == 'limit':
                         bad = None; r.undecided(inst, loc=c.loc, msg='simulation limit'); break
                 else:
+                    # (a path that goes on to another validation call - the loop behind a peeled first iteration - is the scan
+                    # continuing: what is returned after that call is that call's own instance of this rule)
+                    others = {c2.bb.label for c2 in calls if c2 is not c}
+                    if kind == 'ret' and val is None and any(lb in others for lb in trail[1:]):
+                        continue
                     if kind == 'ret' and val != 0:
                         bad = (f'success returns {val}', f'with every verdict 0 the function may return {val}')
             if bad:
